@@ -26,7 +26,7 @@ abbrev Str := List Char
 
 /-- the exception classes the modelled code can raise (`IOError` is `OSError` in Python 3) -/
 inductive PyErr
-  | OSError | ValueError | IndexError | KeyError | TypeError | RecursionError
+  | OSError | ValueError | IndexError | KeyError | TypeError | RecursionError | AttributeError
   | OutOfFuel      -- model artefact: never returned (theorem `walk_fuel_suffices`)
   | OutOfModel     -- input outside the modelled domain (non-ASCII byte)
 deriving DecidableEq, Repr, Inhabited
@@ -34,6 +34,7 @@ deriving DecidableEq, Repr, Inhabited
 def PyErr.name : PyErr → String
   | .OSError => "OSError" | .ValueError => "ValueError" | .IndexError => "IndexError"
   | .KeyError => "KeyError" | .TypeError => "TypeError" | .RecursionError => "RecursionError"
+  | .AttributeError => "AttributeError"
   | .OutOfFuel => "OutOfFuel" | .OutOfModel => "OutOfModel"
 
 /-! ### CPython string primitives (ASCII) -/
@@ -118,29 +119,57 @@ def splitAt1 (p : Char → Bool) (s : Str) : Str × Option Str :=
   | [] => (a, none)
   | _ :: r => (a, some r)
 
-/-- does `float(tok)` succeed? (value not needed by the modelled code paths) -/
-def pyFloatOk (t : Str) : Bool :=
-  let body := match t with
-    | '+' :: r => r
-    | '-' :: r => r
-    | r => r
+/-! ### `float(tok)` with its value
+
+The value is kept EXACT: `(-1)^neg · man · 10^exp10` (CPython rounds this correctly to the nearest
+double; the harness does that step with exact rational arithmetic). -/
+
+inductive PyFloat
+  | nan
+  | inf (neg : Bool)
+  | dec (neg : Bool) (man : Nat) (exp10 : Int)
+deriving DecidableEq, Repr, Inhabited
+
+def splitSign (t : Str) : Bool × Str :=
+  match t with
+  | '+' :: r => (false, r)
+  | '-' :: r => (true, r)
+  | r => (false, r)
+
+/-- mantissa `digitpart? ('.' digitpart?)?` with at least one digit: the integer and the fraction
+    digits (underscores removed) -/
+def mantDigits (mant : Str) : Option (Str × Str) :=
+  match splitAt1 (· = '.') mant with
+  | (ip, none) => (digitPart false ip).map (fun a => (a, []))
+  | (ip, some fp) =>
+    if ip.isEmpty && fp.isEmpty then none
+    else
+      match (if ip.isEmpty then some [] else digitPart false ip),
+            (if fp.isEmpty then some [] else digitPart false fp) with
+      | some a, some b => some (a, b)
+      | _, _ => none
+
+def expVal (ex : Option Str) : Option Int :=
+  match ex with
+  | none => some 0
+  | some e =>
+    let (neg, e') := splitSign e
+    (digitPart false e').map (fun ds => if neg then - (digitsVal ds : Int) else (digitsVal ds : Int))
+
+/-- `float(tok)` for a whitespace-free ASCII token; `none` = `ValueError`. -/
+def pyFloat (t : Str) : Option PyFloat :=
+  let (neg, body) := splitSign t
   let lw := body.map lower
-  if lw = ['i', 'n', 'f'] || lw = ['i', 'n', 'f', 'i', 'n', 'i', 't', 'y'] || lw = ['n', 'a', 'n'] then true else
-  let (mant, ex) := splitAt1 (fun c => c = 'e' || c = 'E') body
-  let dp (s : Str) : Bool := (digitPart false s).isSome
-  let mantOk :=
-    match splitAt1 (· = '.') mant with
-    | (ip, none) => dp ip
-    | (ip, some fp) => (ip.isEmpty || dp ip) && (fp.isEmpty || dp fp) && !(ip.isEmpty && fp.isEmpty)
-  let exOk := match ex with
-    | none => true
-    | some e =>
-      let e' := match e with
-        | '+' :: r => r
-        | '-' :: r => r
-        | r => r
-      dp e'
-  mantOk && exOk
+  if lw = ['i', 'n', 'f'] || lw = ['i', 'n', 'f', 'i', 'n', 'i', 't', 'y'] then some (.inf neg)
+  else if lw = ['n', 'a', 'n'] then some .nan
+  else
+    let (mant, ex) := splitAt1 (fun c => c = 'e' || c = 'E') body
+    match mantDigits mant, expVal ex with
+    | some (a, b), some e => some (.dec neg (digitsVal (a ++ b)) (e - b.length))
+    | _, _ => none
+
+/-- does `float(tok)` succeed? -/
+def pyFloatOk (t : Str) : Bool := (pyFloat t).isSome
 
 /-! ### `ItpLine.parse_itp_line` -/
 
